@@ -132,6 +132,21 @@ func (e *Engine) checkLinkHelpers(r *Report, rule string) {
 			}
 			r.Check(ok, rule, name+": "+st.what, e.Pos(fn.Pos()), "the link surgery lost or changed this pointer update (or its nil guard): the chain/list is left inconsistent", 1, st.instr)
 		}
+		// the neighbours are read once, before anything is rewired: a read repeated after a setter sees the NEW pointer
+		// (canonical strings cannot tell the two reads apart - the instructions can)
+		if name == "queue.unlink" {
+			reads := e.findInstrs(fn, "invoke(queue.link.«(getNext|getPrev)»)(p0)", false)
+			okReads := len(reads) == 2
+			for _, rd := range reads {
+				for _, wr := range all {
+					if !precedes(rd, wr) {
+						okReads = false
+					}
+				}
+			}
+			r.Check(okReads, rule, name+": both neighbours are read once, before the first pointer is rewritten", e.Pos(fn.Pos()),
+				"a neighbour of the node is read (again) after one of its pointers was already cleared: the value is nil, and the other neighbour loses its link", len(reads))
+		}
 		// old neighbour read before it is overwritten
 		if name != "queue.unlink" {
 			rd := "invoke(queue.link.getNext)(p1)"
